@@ -177,6 +177,23 @@ def build_ground(ctx):
             for sub in subsets:
                 for gid in range(ngraphs):
                     exhaustive.append((n, (sub, gid, None)))
+    # operator LISTS with dependent members ("any set of Pauli operators"): an element of the span of the first p operators (the identity, a repetition, a product)
+    # is inserted at position p, in FRONT of further independent operators - all spans, all positions, all graphs for n<=3
+    def with_dependent(rows, p, mask):
+        x = z = 0
+        for i in range(p):
+            if (mask >> i) & 1:
+                x ^= rows[i][0]
+                z ^= rows[i][1]
+        return rows[:p] + [(x, z)] + rows[p:]
+    for n in (2, 3):
+        ngraphs = 1 << (n * (n - 1) // 2)
+        for key in G.all_groups(n):
+            rows = G.rows_from_key(n, key)
+            for p in range(1, n):
+                for mask in range(1 << p):
+                    for gid in range(ngraphs):
+                        exhaustive.append((n, (with_dependent(rows, p, mask), gid, None)))
     groups4 = G.all_groups(4)
     seen = {}
     for key, orb in groups4.items():
@@ -189,6 +206,13 @@ def build_ground(ctx):
             for gid in rnd.sample(range(64), 6):
                 sub = rnd.sample(rows, rnd.randrange(1, 4))
                 exhaustive.append((4, (sub, gid, None)))
+            for gid in rnd.sample(range(64), 6):
+                p = rnd.randrange(1, 4)
+                exhaustive.append((4, (with_dependent(rows, p, rnd.randrange(1 << p)), gid, None)))
+            members4 = [g for g in range(64) if G.orbit_table(4)[0][g] == orb]
+            if members4:
+                for p in (1, 2, 3):
+                    exhaustive.append((4, (with_dependent(rows, p, rnd.randrange(1 << p)), rnd.choice(members4), None)))
     for n in (5, 6):
         orbit_of, reps = G.orbit_table(n)
         cnt = (40 if n == 5 else 16) if ctx.quick else (300 if n == 5 else 100)
@@ -206,6 +230,9 @@ def build_ground(ctx):
             if rnd.random() < 0.3:
                 rows = rnd.sample(rows, rnd.randrange(1, n))
             bounded.append((n, (rows, gid, None)))
+            if same and len(rows) == n:
+                p = rnd.randrange(1, n - 1)
+                bounded.append((n, (with_dependent(rows, p, rnd.randrange(1 << p)), gid, None)))
     return exhaustive, bounded
 
 
